@@ -8,7 +8,7 @@
    distinct field and variant names); dyn_ser: to_stdvec_dyn; enc: the static encoder of
    C01/C02.  The host's float conversions are parameters; the only fact used about them is
    that widening an f32 and narrowing it back is the identity. *)
-From PV Require Import Base MachineInt VarintParams GenLoops DataModel Schema SchemaConv Conform Dyn JsonOf Ser VarintCore DynAgree DynAgreeDe DynArmDecl GenDynArms DynArms DynCompositeExpected GenDynComposite DynArmFacts.
+From PV Require Import Base MachineInt VarintParams GenLoops DataModel Schema SchemaConv Conform Dyn JsonOf Ser VarintCore DynAgree DynAgreeDe DynArmDecl GenDynArms DynArms DynCompositeExpected GenDynComposite GenDynHelpers DynArmFacts.
 Open Scope N_scope.
 
 (* encoding the serde_json form of a value under its schema yields exactly the bytes the static
@@ -89,6 +89,13 @@ Theorem C17_composite_arms_are_the_source :
   dyn_ser_composite_holes = dyn_ser_composite_expected /\ dyn_de_composite_holes = dyn_de_composite_expected.
 Proof. exact dyn_composite_is_source. Qed.
 
+(* ... and so are the helpers around them (to_stdvec_dyn / from_slice_dyn, Option::right and
+   From<TryFromIntError> with their error kind, the bounds-checked take_one / take_n) *)
+Theorem C17_helpers_are_the_source :
+  dynser_fns_matched = [[102; 114; 111; 109]; [114; 105; 103; 104; 116]; [116; 111; 95; 115; 116; 100; 118; 101; 99; 95; 100; 121; 110]] /\
+  dynde_fns_matched = [[102; 114; 111; 109; 95; 115; 108; 105; 99; 101; 95; 100; 121; 110]; [114; 105; 103; 104; 116]; [116; 97; 107; 101; 95; 111; 110; 101]].
+Proof. exact dyn_helpers_are_source. Qed.
+
 Print Assumptions C17_encode_agrees.
 Print Assumptions C17_decode_agrees.
 Print Assumptions C17_private_copies_agree.
@@ -97,3 +104,4 @@ Print Assumptions C17_scalar_arms_cover.
 Print Assumptions C17_decoder_scalar_arms_are_the_source.
 Print Assumptions C17_decoder_scalar_arms_cover.
 Print Assumptions C17_composite_arms_are_the_source.
+Print Assumptions C17_helpers_are_the_source.
